@@ -314,7 +314,7 @@ func (bs *baseServer) Handshake(transportName string, ctx *types.HttpContext) (*
 
 	transport.On("headers", func(args ...any) {
 		headers, req := args[0].(*utils.ParameterBag), args[1].(*types.HttpContext)
-		if !ctx.Query().Has("sid") {
+		if !req.Query().Has("sid") {
 			if cookie := bs.opts.Cookie(); cookie != nil {
 				// the cookie carries this session's id
 				c := *cookie
